@@ -17,7 +17,9 @@ import (
 	"sort"
 	"strconv"
 	"strings"
+	"time"
 
+	"github.com/go-git/go-billy/v6/memfs"
 	"github.com/go-git/go-billy/v6/osfs"
 
 	git "github.com/go-git/go-git/v6"
@@ -88,6 +90,20 @@ func runOp(c lib.Case, st *filesystem.Storage, objs []*b11repo.Obj) error {
 			hs = append(hs, objs[atoi(x)].Hash)
 		}
 		return st.SetShallow(hs)
+	case "commit":
+		// a worktree commit: the index of the case is committed on top of HEAD
+		wt := memfs.New()
+		repo, err := git.Open(st, wt)
+		if err != nil {
+			return err
+		}
+		w, err := repo.Worktree()
+		if err != nil {
+			return err
+		}
+		_, err = w.Commit(c.S("msg"), &git.CommitOptions{AllowEmptyCommits: true,
+			Author: &object.Signature{Name: "A", Email: "a@example.org", When: time.Unix(1000000000, 0).UTC()}})
+		return err
 	case "repack", "prune":
 		repo, err := git.Open(st, nil)
 		if err != nil {
